@@ -190,6 +190,14 @@ func Encode(h *Hello, pad []byte) []byte {
 	return append(c.Body(), pad...)
 }
 
+// EncodeWithSessionID is Encode for a (non-conforming) client that leaves a
+// legacy_session_id of its own in EncodedClientHelloInner.
+func EncodeWithSessionID(h *Hello, sid, pad []byte) []byte {
+	c := h.Clone()
+	c.SessionID = append([]byte{}, sid...)
+	return append(c.Body(), pad...)
+}
+
 // SealOuter fills the placeholder ECH extension of outer (the first extension
 // of type 0xfe0d) with an authentic payload over encoded, and returns the
 // final handshake message. first selects whether enc is sent (first hello) or
